@@ -329,6 +329,25 @@ func runC19(r *Report, tier string) {
 
 	// R19.2 stored values
 	for _, D := range decs {
+		if _, isStruct := deref(D.Params[0].Type()).Underlying().(*types.Struct); isStruct {
+			// structure receivers: whole-value stores and in-place literals
+			for _, w := range P.receiverWrites(D) {
+				o := r.ob("R19.2", shortFn(D)+":stored:"+shortFn(w.fn), w.fn, w.at, "stored value does not read the receiver's old content")
+				bad := ""
+				if !w.complete {
+					bad = "field-wise update of the receiver (" + strings.Join(w.fields, ", ") + ") leaves the other fields behind"
+				}
+				w.val.walk(func(u *Term) {
+					if u.Op == "load" {
+						if rk, _ := termLoc(u.Args[0]); rk == "param:0" {
+							bad = u.String()
+						}
+					}
+				})
+				o.check(bad == "", "whole-value store of "+truncate(w.val.String(), 120), "stored value depends on the previous content: "+bad)
+			}
+			continue
+		}
 		for _, st := range P.receiverStores(D) {
 			vt := P.terms.of(st.Val)
 			o := r.ob("R19.2", shortFn(D)+":stored:"+shortFn(st.Parent()), st.Parent(), st, "stored value does not read the receiver's old content")
